@@ -402,10 +402,9 @@ class Check:
         if not got_summary:
             raise Infra("driver produced no summary record (dead driver?) for %s" % (label or self.pid))
         if mism:
-            path = self._write_replay("mismatch", mism[:20])
-            raise Infra("MODEL-MISMATCH (%d) for %s: real code disagrees with the spec in a way that is not a "
-                        "violation of the property; first: %s ; see %s" %
-                        (len(mism), self.pid, json.dumps(mism[0])[:1500], path))
+            # reported by finish(): a violation found in the same run takes precedence
+            # (exit 1); mismatches alone make the run an infrastructure failure (exit 2)
+            self.mismatches = getattr(self, "mismatches", []) + mism[:20]
 
     def _write_replay(self, tag, obj):
         d = os.path.join(EVID, "replays")
@@ -443,6 +442,14 @@ class Check:
                 m = re.match(r"^(C\d{2,3}):", key)
                 print("VIOLATION property=%s replay=%s" % (m.group(1) if m else self.pid, p))
                 print("  key=%s count=%d first: %s" % (key, len(bykey[key]), bykey[key][0]["what"][:600]))
+        mism = getattr(self, "mismatches", [])
+        if mism and not new:
+            path = self._write_replay("mismatch", mism[:20])
+            raise Infra("MODEL-MISMATCH (%d) for %s: real code disagrees with the spec in a way that is not a "
+                        "violation of the property; first: %s ; see %s" %
+                        (len(mism), self.pid, json.dumps(mism[0])[:1500], path))
+        if mism:
+            print("note: %d model mismatches were also reported in this run" % len(mism))
         cov = self.cov
         if exhaustive is not None:
             cov["exhaustive"] = bool(exhaustive)
